@@ -100,6 +100,7 @@ structure ES where
   n : Node
   now : Nat
   hold : BusId → Bool
+  batch : Nat := 20          -- frames one `ParseMessages` takes from the driver, as measured by the harness (`batch n`)
 
 def cfg : BusId → N2k.Rx.Cfg := fun _ => {}
 
@@ -133,7 +134,7 @@ def arriveAll (es : ES) (b : BusId) (fs : List QFrame) : Option ES :=
 /-- one `ParseMessages` at the next millisecond -/
 def pollOnce (es : ES) (b : BusId) : Option (ES × Nat × List Id) :=
   let es1 := { es with now := es.now + 1 }
-  runEvs es1 [Ev.poll b es1.now]
+  runEvs es1 [Ev.poll b es1.now es1.batch]
 
 /-- poll until the driver queue of `b` is empty (at least once) -/
 def drain (es : ES) (b : BusId) (c : Nat) (l : List Id) : Nat → Option (ES × Nat × List Id)
@@ -164,7 +165,7 @@ def step (s : Option ES) (w : List String) : Option ES × String :=
       | some l => if l.length > maxH then (s, "bad-op") else
         -- destroy everything, then `new 0 p0`, `new 1 p1`, ...
         match (reset wd).bind fun w0 => run w0 ((List.range l.length).zip l |>.map fun (h, p) => Op.new h p none) with
-        | some w' => (some { es with n := ⟨w', compactRx (resetRx es.n.r)⟩, hold := fun _ => false }, "ok")
+        | some w' => (some { es with n := ⟨w', compactRx (resetRx es.n.r)⟩, hold := fun _ => false, batch := 20 }, "ok")
         | none => (none, "fault")
       | none => (s, "bad-op")
     | ["msg", b, p] => match bid? b, pgn? p with
@@ -218,6 +219,14 @@ def step (s : Option ES) (w : List String) : Option ES × String :=
       | some b, some v => if v > 1 then (s, "bad-op") else
         (some { es with hold := fun x => if x = b then v == 1 else es.hold x }, "ok")
       | _, _ => (s, "bad-op")
+    | ["batch", n] => match nat? n with
+      | some n => (some { es with batch := n }, "ok")
+      | none => (s, "bad-op")
+    | ["drain", b] => match bid? b with
+      | some b => match drain es b 0 [] 400 with
+        | some (es', c, l) => (some es', showCalls (some (c, l)))
+        | none => (none, "fault")
+      | none => (s, "bad-op")
     | ["poll", b] => match bid? b with
       | some b => match pollOnce es b with
         | some (es', c, l) => (some es', showCalls (some (c, l)))
@@ -240,6 +249,6 @@ def step (s : Option ES) (w : List String) : Option ES × String :=
 
 /-- both bus objects were polled for 700 ms each before the first op: the virtual clock stands at 1400 -/
 def main : IO Unit :=
-  loop step (some ⟨⟨World.init, ⟨fun _ _ => false, fun _ => N2k.Rx.init 5, fun _ => []⟩⟩, 1400, fun _ => false⟩)
+  loop step (some ⟨⟨World.init, ⟨fun _ _ => false, fun _ => N2k.Rx.init 5, fun _ => []⟩⟩, 1400, fun _ => false, 20⟩)
 
 end Driver.Handlers
